@@ -1,9 +1,8 @@
 #!/bin/sh
 # run_all.sh quick|thorough : every registered check in turn (development aid)
 tier=${1:-quick}
-cd /verif
-rc=0
+ROOT=$(cd "$(dirname "$0")/.." && pwd)
+cd "$ROOT"
 for p in C01 C02 C03 C04 C05 C06 C07 C08 C09 C10 C11 C12 C13 C14 C15 C16 C17 C18 C19 C20; do
-  /venv/bin/python harness/check.py $p --tier $tier 2>&1 | grep -E "VIOLATION|KNOWN-FINDING|$tier:" | cut -c1-260 || rc=1
+  /venv/bin/python harness/check.py $p --tier $tier 2>&1 | grep -E "VIOLATION|KNOWN-FINDING|$tier:" | cut -c1-260
 done
-exit $rc
